@@ -181,7 +181,40 @@ pub fn tx_alphabet(n: &Node, cfg: &AlphaCfg) -> Vec<(String, Transaction, bool)>
         }
     }
     acc.extend(pool_alphabet(n, cfg));
+    if m.fee_multiplier > 0 {
+        // fee-aware instantiation: plain templates pay exactly the minimum fee (plus what they already over-paid),
+        // taken from their largest MEL output
+        for (_, tx, ok) in acc.iter_mut() {
+            if *ok {
+                pay_min_fee(tx, m.fee_multiplier);
+            }
+        }
+    }
     acc
+}
+
+/// Raises the fee of `tx` to the minimum fee (on top of any fee it already pays) and takes the difference out of its largest MEL output.
+pub fn pay_min_fee(tx: &mut Transaction, mult: u128) {
+    let extra = tx.fee.0;
+    let idx = match tx.outputs.iter().enumerate().filter(|(_, o)| o.denom == Denom::Mel && o.covhash != Address::coin_destroy()).max_by_key(|(_, o)| o.value.0) {
+        Some((i, _)) => i,
+        None => return,
+    };
+    let orig = tx.outputs[idx].value.0;
+    for _ in 0..5 {
+        let need = crate::refstf::ref_min_fee(tx, mult);
+        if need > orig {
+            return;
+        }
+        tx.fee = CoinValue(need + extra);
+        tx.outputs[idx].value = CoinValue(orig - need);
+    }
+    // the last iteration may have changed the encoded size by a byte; never leave the transaction below the minimum
+    let need = crate::refstf::ref_min_fee(tx, mult);
+    if tx.fee.0 < need + extra && orig >= need {
+        tx.fee = CoinValue(need + extra);
+        tx.outputs[idx].value = CoinValue(orig - need);
+    }
 }
 
 pub fn known_pools(m: &RefState) -> Vec<PoolKey> {
